@@ -9,7 +9,10 @@ stands — the negation of the round trip on a witness (F9: comparison descripti
 Tie: the private state of every real linker (original, reloaded, reloaded on the other backend) is dumped attribute by
 attribute and compared with the model's `fromDict`; every real JSON with the model's `asDict`.
 Oracle (independent of the model and of Splink's serialisers): predict() of the original vs the reloaded linker row by
-row and column by column, first vs second generation JSON, and the user's own values looked up in the first JSON.
+row and column by column, first vs second generation JSON, the user's own values looked up in the first JSON (including the
+ORDER of the comparison levels: null flags, ELSE, columns named, SQL text), and a brute-force evaluation in plain Python of the
+user's level list, in the user's order, against the comparison vector value of every scored pair (NULLs in any column) of the
+in-memory linker and of every reloaded linker.
 """
 from __future__ import annotations
 
@@ -71,8 +74,20 @@ def tok_diff(a, b, path=""):
 
 
 # --------------------------------------------------------------------------- case generation
+NULL_KINDS = ("null", "nullboth", "nullany")
+O_DOM = ["anna", "anne", "bob", "bobb", "bo"]  # 'ordered' family: equality, edit-distance and prefix levels overlap on many pairs
+
+
+def is_null_kind(lv):
+    return lv.get("kind") in NULL_KINDS
+
+
 def level_sql(col, lv, quoted):
-    l, r = (f'"{col}_l"', f'"{col}_r"') if quoted else (f"{col}_l", f"{col}_r")
+    """SQL text of a level.  A level may name its own column(s) (`col`, `col2`): comparisons over several columns."""
+    def lr(c):
+        return (f'"{c}_l"', f'"{c}_r"') if quoted else (f"{c}_l", f"{c}_r")
+
+    l, r = lr(lv.get("col", col))
     k = lv["kind"]
     if k == "null":
         return f"{l} IS NULL OR {r} IS NULL"
@@ -82,6 +97,13 @@ def level_sql(col, lv, quoted):
         return f"levenshtein({l}, {r}) <= {lv['k']}"
     if k == "jw":
         return f"jaro_winkler_similarity({l}, {r}) >= {lv['k']}"
+    if k == "prefix":
+        return f"substr({l}, 1, {lv['k']}) = substr({r}, 1, {lv['k']})"
+    if k in ("eq2", "nullboth", "nullany"):
+        l2, r2 = lr(lv["col2"])
+        if k == "eq2":
+            return f"{l} = {r} AND {l2} = {r2}"
+        return f"({l} IS NULL OR {r} IS NULL) {'AND' if k == 'nullboth' else 'OR'} ({l2} IS NULL OR {r2} IS NULL)"
     return "ELSE"
 
 
@@ -101,10 +123,15 @@ def gen_dict_comparison(rng, col, engine, allow_u_zero):
     elif r < 0.5 and engine == "duckdb":
         kinds.append({"kind": "jw", "k": rng.choice([0.9, 0.8])})
     kinds.append({"kind": "else"})
-    style = rng.choice(["none", "all", "some"])
+    return decorate_dict_comparison(rng, col, kinds, rng.choice(["none", "all", "some"]), allow_u_zero)
+
+
+def decorate_dict_comparison(rng, col, kinds, style, allow_u_zero):
+    """Labels, m/u, fix flags, explicit defaults and TF attributes on a list of level kinds (in the order given)."""
     tf_on = col == "a" and rng.random() < 0.5
+    has_eq = any(lv["kind"] == "eq" and lv.get("col", col) == col for lv in kinds)  # TF on a fuzzy level needs an exact-match level
     for lv in kinds:
-        if lv["kind"] == "null":
+        if is_null_kind(lv):
             if rng.random() < 0.5:
                 lv["label"] = "Null"
             if rng.random() < 0.3:
@@ -121,13 +148,31 @@ def gen_dict_comparison(rng, col, engine, allow_u_zero):
             lv["fix_u"] = True
         if rng.random() < 0.2:
             lv["explicit_defaults"] = True
-        if tf_on and lv["kind"] in ("eq", "lev") and (lv["kind"] == "eq" or rng.random() < 0.4):
+        if tf_on and lv.get("col", col) == col and lv["kind"] in ("eq", "lev") and (lv["kind"] == "eq" or (has_eq and rng.random() < 0.4)):
             tf = {"weight": rng.choice([0, 0.0, 0.5, 1, 1.0, None]), "minU": rng.choice([None, 0, 0.0, 0.01, 0.2])}
             if lv["kind"] == "lev" and rng.random() < 0.4:
                 tf["disable"] = True
             lv["tf"] = tf
     return {"src": "dict", "col": col, "name": rng.choice([col, col, f"{col}_cmp", None]), "desc": rng.choice(DESCS),
             "quoted": rng.random() < 0.5, "levels": kinds}
+
+
+def gen_ordered_dict_comparison(rng, col, engine):
+    """Family 'ordered': the level list in ARBITRARY order.  The levels of a comparison are a CASE WHEN chain, so their order is
+    part of the model: 0-2 null levels (over this column, another column, both) at any position, non-null levels over this and
+    another column whose conditions overlap (equality / edit distance / common prefix / two-column equality) in any order, ELSE last
+    (Splink's SQL is invalid otherwise)."""
+    o = rng.choice([c for c in ("a", "b", "c") if c != col])
+    pool = [{"kind": "eq"}, {"kind": "eq", "col": o}, {"kind": "lev", "k": rng.choice([1, 2])}, {"kind": "prefix", "k": rng.choice([1, 2])}, {"kind": "eq2", "col2": o}]
+    if engine == "duckdb" and rng.random() < 0.12:
+        pool.append({"kind": "jw", "k": 0.8})
+    body = rng.sample(pool, rng.randint(2, 4))
+    nulls = rng.choice([[], [{"kind": "null"}], [{"kind": "null"}], [{"kind": "null"}], [{"kind": "null", "col": o}], [{"kind": "null"}, {"kind": "null", "col": o}],
+                        [{"kind": "nullboth", "col2": o}], [{"kind": "nullany", "col2": o}], [{"kind": "nullboth", "col2": o}, {"kind": "null"}]])
+    for nl in nulls:
+        body.insert(rng.randint(0, len(body)), dict(nl))
+    body.append({"kind": "else"})
+    return decorate_dict_comparison(rng, col, body, rng.choice(["all", "all", "some", "none"]), False)
 
 
 def gen_creator_comparison(rng, col, engine):
@@ -173,24 +218,85 @@ def gen_creator_comparison(rng, col, engine):
     return c
 
 
-def gen_rows(rng, n, dom_a, with_arr):
+def gen_ordered_creator_comparison(rng, col):
+    """The 'ordered' family built from comparison_level_library creators inside a CustomComparison: NullLevel anywhere (also
+    Or(NullLevel, NullLevel), itself a null level), ExactMatchLevel on this / another column, LevenshteinLevel, a CustomLevel (common
+    prefix) and And(ExactMatchLevel, ExactMatchLevel) in any order, ElseLevel last.  `sem` is what the level means (for the oracle)."""
+    o = rng.choice([c for c in ("a", "b", "c") if c != col])
+    k, n = rng.choice([1, 2]), rng.choice([1, 2])
+    pool = [{"lib": "ExactMatchLevel"}, {"lib": "ExactMatchLevel", "col": o}, {"lib": "LevenshteinLevel", "k": k},
+            {"lib": "CustomLevel", "sql": f"substr({col}_l, 1, {n}) = substr({col}_r, 1, {n})", "label": rng.choice([None, "same prefix"]), "sem": {"kind": "prefix", "k": n}},
+            {"lib": "And", "col2": o}]
+    body = rng.sample(pool, rng.randint(2, 4))
+    nulls = rng.choice([[], [{"lib": "NullLevel"}], [{"lib": "NullLevel"}], [{"lib": "NullLevel"}], [{"lib": "NullLevel", "col": o}],
+                        [{"lib": "NullLevel"}, {"lib": "NullLevel", "col": o}], [{"lib": "OrNull", "col2": o}]])
+    for nl in nulls:
+        body.insert(rng.randint(0, len(body)), dict(nl))
+    body.append({"lib": "ElseLevel"})
+    for lv in body:
+        if lv["lib"] in ("NullLevel", "OrNull"):
+            continue
+        cfg = {}
+        if rng.random() < 0.7:
+            cfg["m_probability"] = gen_prob(rng, False)
+        if rng.random() < 0.7:
+            cfg["u_probability"] = gen_prob(rng, False)
+        if rng.random() < 0.15:
+            cfg["fix_m_probability"] = True
+        if rng.random() < 0.2:
+            cfg["label_for_charts"] = "configured label"
+        if cfg:
+            lv["configure"] = cfg
+    return {"src": "creator", "col": col, "creator": "CustomComparison", "desc": rng.choice(DESCS), "name": rng.choice([col, f"{col}_custom"]), "levels": body}
+
+
+def gen_rows(rng, n, dom_a, with_arr, nulls="low"):
+    """nulls='high' (family 'ordered'): NULLs in every column (also in both columns of a record), empty strings."""
     rows = []
+    p_a, p_b, p_c, p_empty = (0.12, 0.1, 0.0, 0.0) if nulls == "low" else (0.3, 0.3, 0.15, 0.08)
     for i in range(n):
-        r = {"id": i + 1, "a": None if rng.random() < 0.12 else rng.choice(dom_a), "b": None if rng.random() < 0.1 else rng.choice(B_DOM),
+        r = {"id": i + 1, "a": None if rng.random() < p_a else rng.choice(dom_a), "b": None if rng.random() < p_b else rng.choice(B_DOM),
              "c": rng.choice(["x", "y"])}
+        if nulls == "high":
+            if rng.random() < p_c:
+                r["c"] = None
+            if r["a"] is not None and rng.random() < p_empty:
+                r["a"] = ""
         if with_arr:
             r["arr"] = rng.sample(["1", "2", "3"], rng.randint(1, 2))
         rows.append(r)
     return rows
 
 
+def split_datasets(rng, rows, collide):
+    """Two input tables (link_only / link_and_dedupe): every row gets a dataset index `ds`; with `collide` the unique ids restart
+    at 1 in the second table (ids that collide across datasets)."""
+    k = rng.randint(2, len(rows) - 2)
+    for i, r in enumerate(rows):
+        r["ds"] = 0 if i < k else 1
+        if collide and i >= k:
+            r["id"] = i - k + 1
+    return rows
+
+
+RULE_SQLS = ["l.c = r.c", "l.b = r.b", "l.a = r.a", "l.c = r.c and l.b = r.b", 'l."b" = r."b"', "1=1"]
+BLOCK_ON = [["b"], ["c"], ["a", "c"], ["c", "b"]]
+LOAD_FORMS = ["path", "path", "Path", "dict", "creator"]
+
+
 def gen_case(rng: random.Random, family=None):
-    family = family or rng.choice(["dict", "dict", "dict", "creator", "creator", "trained", "trained", "unobserved"])
+    family = family or rng.choice(["dict", "dict", "dict", "creator", "creator", "trained", "trained", "unobserved", "ordered", "ordered", "ordered"])
     engine = rng.choice(["duckdb", "duckdb", "sqlite"])
-    src = "creator" if family == "creator" else rng.choice(["dict", "dict", "creator"]) if family in ("trained", "unobserved") else "dict"
+    src = "creator" if family == "creator" else rng.choice(["dict", "dict", "creator"]) if family in ("trained", "unobserved", "ordered") else "dict"
     allow_u_zero = engine == "duckdb" and family == "dict"
     cols = ["a", "b"] if rng.random() < 0.7 else ["a"]
-    comps = [(gen_dict_comparison(rng, c, engine, allow_u_zero) if src == "dict" else gen_creator_comparison(rng, c, engine)) for c in cols]
+    if family == "ordered":
+        comps = [(gen_ordered_dict_comparison(rng, c, engine) if src == "dict" else gen_ordered_creator_comparison(rng, c)) for c in cols]
+        if len(comps) == 2 and rng.random() < 0.5:
+            # the second comparison is an ordinary one
+            comps[1] = gen_dict_comparison(rng, "b", engine, False) if src == "dict" else gen_creator_comparison(rng, "b", engine)
+    else:
+        comps = [(gen_dict_comparison(rng, c, engine, allow_u_zero) if src == "dict" else gen_creator_comparison(rng, c, engine)) for c in cols]
     for cc in comps[1:]:
         # at most one comparison per case relies on _default_output_column_name (the model takes that name as a parameter)
         if cc["src"] == "dict" and cc.get("name") is None:
@@ -203,12 +309,15 @@ def gen_case(rng: random.Random, family=None):
     with_arr = engine == "duckdb" and rng.random() < 0.3
     rules = []
     for _ in range(rng.choice([0, 1, 1, 2, 3])):
-        sql = rng.choice(["l.c = r.c", "l.b = r.b", "l.a = r.a", "l.c = r.c and l.b = r.b", 'l."b" = r."b"', "1=1"])
+        sql = rng.choice(RULE_SQLS if family != "ordered" else RULE_SQLS + ["1=1", "1=1", "l.c = r.c"])
         r = {"sql": sql, "form": rng.choice(["str", "dict", "dict"])}
         if engine == "duckdb" and rng.random() < 0.3:
             r["form"], r["salt"] = "dict", rng.choice([2, 3, 5])
         elif with_arr and rng.random() < 0.5:
             r = {"sql": "l.arr = r.arr", "form": "dict", "explode": ["arr"]}
+        elif src == "creator" and rng.random() < 0.3:
+            # a blocking-rule creator object (block_on); the settings are then never a plain JSON dict
+            r = {"form": "block_on", "cols": rng.choice(BLOCK_ON)}
         rules.append(r)
     opts = {}
     if rng.random() < 0.4:
@@ -219,7 +328,7 @@ def gen_case(rng: random.Random, family=None):
         opts["term_frequency_adjustment_column_prefix"] = rng.choice(["t_", "termfreq_"])
     if rng.random() < 0.5:
         opts["retain_intermediate_calculation_columns"] = rng.random() < 0.7
-    if rng.random() < 0.3:
+    if rng.random() < (0.3 if family != "ordered" else 0.15):
         opts["retain_matching_columns"] = rng.random() < 0.5
     if rng.random() < 0.4:
         opts["additional_columns_to_retain"] = rng.choice([["c"], ["c", "b"], []])
@@ -239,8 +348,8 @@ def gen_case(rng: random.Random, family=None):
         # original and on the reloaded model alike (ComparisonLevel._tf_adjustment_input_column ignores the prefix); keep it rare
         del opts["term_frequency_adjustment_column_prefix"]
     history = []
-    if family in ("trained", "unobserved"):
-        for _ in range(rng.choice([1, 2, 2, 3])):
+    if family in ("trained", "unobserved") or (family == "ordered" and rng.random() < 0.4):
+        for _ in range(rng.choice([1, 2, 2, 3]) if family != "ordered" else rng.choice([1, 1, 2])):
             op = rng.choice(["u", "em", "em", "prior"])
             if op == "u":
                 history.append({"op": "u", "max_pairs": rng.choice([30, 200, 1e4]), "seed": rng.randint(1, 5)})
@@ -248,9 +357,23 @@ def gen_case(rng: random.Random, family=None):
                 history.append({"op": "em", "rule": rng.choice(["l.c = r.c", "l.b = r.b", "l.a = r.a"]), "fix_u": rng.random() < 0.3, "fix_m": rng.random() < 0.15})
             else:
                 history.append({"op": "prior", "rule": rng.choice(["l.c = r.c and l.b = r.b", "l.a = r.a"]), "recall": rng.choice([0.6, 0.9])})
-    return {"engine": engine, "family": family, "uid": rng.choice(["unique_id", "unique_id", "uid", "ID"]), "link_type": "dedupe_only",
-            "rows": gen_rows(rng, rng.randint(7, 14), FAR_DOM if family == "unobserved" else STR_DOM, with_arr), "comparisons": comps, "rules": rules, "opts": opts,
-            "history": history, "tag": "random"}
+    rows = gen_rows(rng, rng.randint(7, 14), FAR_DOM if family == "unobserved" else O_DOM if family == "ordered" else STR_DOM, with_arr, "high" if family == "ordered" else "low")
+    case = {"engine": engine, "family": family, "uid": rng.choice(["unique_id", "unique_id", "uid", "ID"]), "link_type": "dedupe_only",
+            "rows": rows, "comparisons": comps, "rules": rules, "opts": opts, "history": history, "tag": "random"}
+    # ---- input layout / argument forms (drawn last: the families above keep their shape)
+    if rng.random() < 0.2:
+        # two input tables; ids may collide across them; optionally named through input_table_aliases
+        case["link_type"] = rng.choice(["link_only", "link_and_dedupe"])
+        split_datasets(rng, rows, rng.random() < 0.5)
+        if rng.random() < 0.4:
+            case["aliases"] = ["ta", "tb"]
+    case["load_form"] = rng.choice(LOAD_FORMS)
+    if not all_dict(case):
+        if rng.random() < 0.3:
+            case["settings_form"] = "dict_holding_creators"
+        if rng.random() < 0.3:
+            case["reuse_settings_object"] = True
+    return case
 
 
 def adversarial_cases():
@@ -269,6 +392,40 @@ def adversarial_cases():
     return out
 
 
+GRID_ROWS = [("anna", "p", "x"), ("anna", None, "x"), (None, "p", "y"), (None, None, "x"), ("bob", "p", None), ("bobb", "q", "y"), ("", "q", "x"), ("", "q", "y"),
+             ("anne", None, "y"), ("bo", "q", None), ("bob", None, None)]
+
+
+def ordered_grid_cases():
+    """Fixed grid of the 'ordered' family: one comparison over two columns, the null level at EVERY position of the level list
+    (and two null levels), dict levels and library levels, both engines, all pairs scored; the data holds every NULL pattern."""
+    out = []
+    rows = [{"id": i + 1, "a": a, "b": b, "c": c} for i, (a, b, c) in enumerate(GRID_ROWS)]
+    mu = [(0.9, 0.01), (0.6, 0.05), (0.3, 0.2), (0.05, 0.8)]
+    for engine in ("duckdb", "sqlite"):
+        for pos in (0, 1, 2, 3, (1, 3), (0, 2)):
+            body = [{"kind": "eq", "col": "b"}, {"kind": "eq"}, {"kind": "prefix", "k": 1}, {"kind": "else"}]
+            lib = [{"lib": "ExactMatchLevel", "col": "b"}, {"lib": "ExactMatchLevel"}, {"lib": "LevenshteinLevel", "k": 2}, {"lib": "ElseLevel"}]
+            for lv, lb, (m, u) in zip(body, lib, mu):
+                lv.update(label=f"{lv['kind']} level", m=m, u=u)
+                lb["configure"] = {"m_probability": m, "u_probability": u}
+            if isinstance(pos, tuple):
+                # inserted in this order, so the second position refers to the list that already holds the first null level
+                nulls_d = [(pos[0], {"kind": "null", "label": "a missing"}), (pos[1], {"kind": "null", "col": "b", "label": "b missing"})]
+                nulls_l = [(pos[0], {"lib": "NullLevel"}), (pos[1], {"lib": "NullLevel", "col": "b"})]
+            else:
+                nulls_d, nulls_l = [(pos, {"kind": "null", "label": "a missing"})], [(pos, {"lib": "NullLevel"})]
+            for (i, nl), (_, nb) in zip(nulls_d, nulls_l):
+                body.insert(i, nl)
+                lib.insert(i, nb)
+            base = {"engine": engine, "family": "ordered-grid", "uid": "unique_id", "link_type": "dedupe_only", "rows": json.loads(json.dumps(rows)),
+                    "rules": [{"sql": "1=1", "form": "str"}], "opts": {"retain_intermediate_calculation_columns": True, "probability_two_random_records_match": 0.02},
+                    "history": [], "tag": "ordered-grid", "load_form": "path" if engine == "duckdb" else "dict"}
+            out.append(dict(base, comparisons=[{"src": "dict", "col": "a", "name": "address", "desc": "b, falling back on a", "quoted": False, "levels": body}]))
+            out.append(dict(base, comparisons=[{"src": "creator", "col": "a", "creator": "CustomComparison", "name": "address", "desc": None, "levels": lib}]))
+    return out
+
+
 def loud_cases():
     """Inputs outside the model's well-formedness: the real constructors must raise (never silently alter)."""
     base = lambda lv: {"link_type": "dedupe_only", "comparisons": [{"output_column_name": "a", "comparison_levels": lv}]}  # noqa: E731
@@ -284,7 +441,7 @@ def user_level_dict(c, lv):
     d = {"sql_condition": level_sql(c["col"], lv, c.get("quoted"))}
     if lv.get("label") is not None:
         d["label_for_charts"] = lv["label"]
-    if lv["kind"] == "null":
+    if is_null_kind(lv):
         d["is_null_level"] = True
     for k, key in (("m", "m_probability"), ("u", "u_probability")):
         if k in lv:
@@ -296,10 +453,10 @@ def user_level_dict(c, lv):
     if lv.get("explicit_defaults"):
         d.setdefault("fix_m_probability", False)
         d["disable_tf_exact_match_detection"] = False
-        if lv["kind"] != "null":
+        if not is_null_kind(lv):
             d["is_null_level"] = False
     if lv.get("tf"):
-        d["tf_adjustment_column"] = c["col"]
+        d["tf_adjustment_column"] = lv.get("col", c["col"])
         if lv["tf"].get("weight") is not None:
             d["tf_adjustment_weight"] = lv["tf"]["weight"]
         if lv["tf"].get("minU") is not None:
@@ -321,6 +478,10 @@ def user_comparison_dict(c):
 def user_rule(r):
     if r["form"] == "str":
         return r["sql"]
+    if r["form"] == "block_on":
+        from splink import block_on
+
+        return block_on(*r["cols"])
     d = {"blocking_rule": r["sql"]}
     if "salt" in r:
         d["salting_partitions"] = r["salt"]
@@ -340,7 +501,8 @@ def user_settings_dict(case):
 
 
 def all_dict(case):
-    return all(c["src"] == "dict" for c in case["comparisons"])
+    """The user's settings are a plain JSON dict (no creator object anywhere)."""
+    return all(c["src"] == "dict" for c in case["comparisons"]) and all(r["form"] != "block_on" for r in case["rules"])
 
 
 def build_creator(c):
@@ -353,10 +515,17 @@ def build_creator(c):
     if c["creator"] == "CustomComparison":
         lvls = []
         for lv in c["levels"]:
+            lcol = lv.get("col", col)
             if lv["lib"] == "NullLevel":
-                o = cll.NullLevel(col)
+                o = cll.NullLevel(lcol)
             elif lv["lib"] == "ExactMatchLevel":
-                o = cll.ExactMatchLevel(col)
+                o = cll.ExactMatchLevel(lcol)
+            elif lv["lib"] == "LevenshteinLevel":
+                o = cll.LevenshteinLevel(lcol, lv["k"])
+            elif lv["lib"] == "And":
+                o = cll.And(cll.ExactMatchLevel(lcol), cll.ExactMatchLevel(lv["col2"]))
+            elif lv["lib"] == "OrNull":
+                o = cll.Or(cll.NullLevel(lcol), cll.NullLevel(lv["col2"]))
             elif lv["lib"] == "ElseLevel":
                 o = cll.ElseLevel()
             else:
@@ -389,8 +558,11 @@ def build_settings(case):
     kw = dict(case["opts"])
     if case["uid"] != "unique_id":
         kw["unique_id_column_name"] = case["uid"]
-    return SettingsCreator(link_type=case["link_type"], comparisons=[build_creator(c) for c in case["comparisons"]],
-                           blocking_rules_to_generate_predictions=[user_rule(r) for r in case["rules"]], **kw)
+    kw.update(link_type=case["link_type"], comparisons=[build_creator(c) for c in case["comparisons"]],
+              blocking_rules_to_generate_predictions=[user_rule(r) for r in case["rules"]])
+    if case.get("settings_form") == "dict_holding_creators":
+        return kw  # a plain settings dict whose comparisons / rules are creator objects
+    return SettingsCreator(**kw)
 
 
 # --------------------------------------------------------------------------- real code
@@ -456,16 +628,35 @@ def predict_rows(linker):
 
 
 def frame(case, engine):
+    """The input table(s): one frame for dedupe_only, a list of two frames (split by the rows' `ds`) for the link types."""
     from harness import impl
 
-    rows = [{(case["uid"] if k == "id" else k): v for k, v in r.items()} for r in case["rows"]]
-    if engine != "duckdb":
-        rows = [{k: v for k, v in r.items() if k != "arr"} for r in rows]
-    types = {case["uid"]: "int", "a": "str", "b": "str", "c": "str"}
-    df = impl.typed_frame(rows, types)
-    if rows and "arr" in rows[0]:
-        df["arr"] = [r["arr"] for r in rows]
-    return df
+    def one(rs):
+        rows = [{(case["uid"] if k == "id" else k): v for k, v in r.items() if k != "ds"} for r in rs]
+        if engine != "duckdb":
+            rows = [{k: v for k, v in r.items() if k != "arr"} for r in rows]
+        types = {case["uid"]: "int", "a": "str", "b": "str", "c": "str"}
+        df = impl.typed_frame(rows, types)
+        if rows and "arr" in rows[0]:
+            df["arr"] = [r["arr"] for r in rows]
+        return df
+
+    if case["link_type"] == "dedupe_only":
+        return one(case["rows"])
+    return [one([r for r in case["rows"] if r["ds"] == d]) for d in (0, 1)]
+
+
+def dataset_names(case):
+    return case.get("aliases") or ["__splink__input_table_0", "__splink__input_table_1"]
+
+
+def new_linker(case, engine, settings):
+    from splink import Linker
+
+    from harness import impl
+
+    kw = {"input_table_aliases": list(case["aliases"])} if case.get("aliases") else {}
+    return Linker(frame(case, engine), settings, impl.make_api(engine, threads=2), **kw)
 
 
 def attempt(f):
@@ -481,22 +672,40 @@ def attempt(f):
         return None, f"{type(e).__name__}: {str(e)[:300]}"
 
 
+def load_source(case, path, text):
+    """The saved model in the form the user hands it to a new Linker: path string, pathlib.Path, the parsed JSON text, or a
+    SettingsCreator made by from_path_or_dict."""
+    import pathlib
+
+    lf = case.get("load_form", "path")
+    if lf == "Path":
+        return pathlib.Path(path)
+    if lf == "dict":
+        return json.loads(text)
+    if lf == "creator":
+        from splink import SettingsCreator
+
+        return SettingsCreator.from_path_or_dict(path)
+    return path
+
+
 def snapshot(case, linker, sdir, idx, portable):
     """save -> reload (same backend, other backend) -> predict everywhere -> save again."""
-    from splink import Linker
-
-    from harness import impl
+    import pathlib
 
     out = {"state": dump_state(linker)}
     p1 = os.path.join(sdir, f"m{idx}_gen1.json")
-    linker.misc.save_model_to_json(p1, overwrite=True)
+    linker.misc.save_model_to_json(pathlib.Path(p1) if case.get("load_form") == "Path" else p1, overwrite=True)
     text1 = open(p1, encoding="utf-8").read()
     out["json1"] = json.loads(text1)
+    # overwrite=False on an existing file must refuse and leave the file alone
+    _, guard = attempt(lambda: linker.misc.save_model_to_json(p1))
+    out["overwrite_guard"] = {"raised": guard, "text_unchanged": open(p1, encoding="utf-8").read() == text1}
     out["pred"], out["pred_err"] = attempt(lambda: predict_rows(linker))
     targets = [("same", case["engine"])] + ([("other", OTHER[case["engine"]])] if portable else [])
     for name, eng in targets:
         r = {"engine": eng}
-        lk, r["load_err"] = attempt(lambda: Linker(frame(case, eng), p1, impl.make_api(eng, threads=2)))
+        lk, r["load_err"] = attempt(lambda: new_linker(case, eng, load_source(case, p1, text1)))
         if lk is not None:
             r["state"] = dump_state(lk)
             p2 = os.path.join(sdir, f"m{idx}_gen2_{name}.json")
@@ -507,7 +716,7 @@ def snapshot(case, linker, sdir, idx, portable):
             r["pred"], r["pred_err"] = attempt(lambda: predict_rows(lk))
             if name == "same":
                 # third generation: the reloaded model saved, loaded and saved once more
-                lk3, _ = attempt(lambda: Linker(frame(case, eng), p2, impl.make_api(eng, threads=2)))
+                lk3, _ = attempt(lambda: new_linker(case, eng, p2))
                 if lk3 is not None:
                     r["json3"] = lk3.misc.save_model_to_json()
         out[name] = r
@@ -527,15 +736,16 @@ def is_portable(case):
 
 
 def run_impl(case: dict) -> dict:
-    from splink import Linker
-
-    from harness import impl
-
     sdir = str(core.VERIF / ".scratch" / "c09" / f"{os.getpid()}_{core.canon_hash(case)}")
     os.makedirs(sdir, exist_ok=True)
-    api = impl.make_api(case["engine"], threads=2)
-    linker = Linker(frame(case, case["engine"]), build_settings(case), api)
     portable = is_portable(case)
+    settings = build_settings(case)
+    if case.get("reuse_settings_object") and portable:
+        # the same settings object first serves a linker of the OTHER dialect, then the linker under test
+        attempt(lambda: new_linker(case, OTHER[case["engine"]], settings))
+    elif case.get("reuse_settings_object"):
+        attempt(lambda: new_linker(case, case["engine"], settings))
+    linker = new_linker(case, case["engine"], settings)
     out = {"portable": portable, "snaps": [snapshot(case, linker, sdir, 0, portable)], "ops": []}
     for i, h in enumerate(case["history"]):
         if h["op"] == "u":
@@ -632,6 +842,52 @@ def pred_diff(p, q, rel, abs_=0.0):
     return None
 
 
+def squash_sql(sql):
+    import re
+
+    return re.sub(r'[\s"()]', "", sql).lower()
+
+
+def level_signature(c):
+    """What the user's level list says, level by level and IN ORDER: (is a null level, the columns its SQL must mention, ELSE?).
+    None for a level the harness cannot describe."""
+    col, out = c["col"], []
+    if c["src"] == "dict":
+        for lv in c["levels"]:
+            cols = [] if lv["kind"] == "else" else sorted({lv.get("col", col)} | ({lv["col2"]} if "col2" in lv else set()))
+            out.append((is_null_kind(lv), cols, lv["kind"] == "else"))
+        return out
+    if c.get("creator") == "CustomComparison":
+        for lv in c["levels"]:
+            cols = [] if lv["lib"] == "ElseLevel" else [col] if lv["lib"] == "CustomLevel" else sorted({lv.get("col", col)} | ({lv["col2"]} if "col2" in lv else set()))
+            out.append((lv["lib"] in ("NullLevel", "OrNull"), cols, lv["lib"] == "ElseLevel"))
+        return out
+    n = len(c.get("thresholds", []))
+    return [(True, [col], False)] + [(False, [col], False)] * (1 + n) + [(False, [], True)]
+
+
+def level_order_diff(c, saved_levels):
+    """The saved comparison levels are the user's levels, in the user's order (null flags, ELSE, columns named, and for dict
+    levels the SQL text itself)."""
+    import re
+
+    sig = level_signature(c)
+    if len(sig) != len(saved_levels):
+        return f"{len(sig)} levels given, {len(saved_levels)} saved"
+    for i, ((isnull, cols, is_else), jl) in enumerate(zip(sig, saved_levels)):
+        sql = jl.get("sql_condition", "")
+        if bool(jl.get("is_null_level", False)) != isnull:
+            return f"level {i}: the user's level {'is' if isnull else 'is not'} a null level, the saved level {i} ({sql!r}) {'is' if jl.get('is_null_level') else 'is not'}"
+        if (sql.strip().upper() == "ELSE") != is_else:
+            return f"level {i}: ELSE expected {is_else}, saved level is {sql!r}"
+        named = sorted(set(re.findall(r'"?([a-z]+)_[lr]"?', sql)))
+        if named != cols:
+            return f"level {i}: the user's level is over columns {cols}, the saved level {sql!r} names {named}"
+        if c["src"] == "dict" and sql != level_sql(c["col"], c["levels"][i], c.get("quoted")):
+            return f"level {i}: user wrote {level_sql(c['col'], c['levels'][i], c.get('quoted'))!r}, saved level {i} is {sql!r}"
+    return None
+
+
 def user_values_verdict(case, j1):
     """The user's own values, looked up naively in the first saved JSON."""
     for key, v in case["opts"].items():
@@ -639,12 +895,24 @@ def user_values_verdict(case, j1):
             return f"option {key}: user wrote {v!r}, saved model has {j1.get(key)!r}", "option"
     if j1.get("unique_id_column_name") != case["uid"]:
         return f"unique_id_column_name: user wrote {case['uid']!r}, saved model has {j1.get('unique_id_column_name')!r}", "option"
+    if j1.get("link_type") != case["link_type"]:
+        return f"link_type: user wrote {case['link_type']!r}, saved model has {j1.get('link_type')!r}", "option"
     if len(j1["blocking_rules_to_generate_predictions"]) != len(case["rules"]):
         return "number of blocking rules differs", "rule"
     for r, jr in zip(case["rules"], j1["blocking_rules_to_generate_predictions"]):
-        if jr.get("blocking_rule") != r["sql"] or jr.get("salting_partitions") != r.get("salt") or jr.get("arrays_to_explode") != r.get("explode"):
+        if r["form"] == "block_on":
+            # block_on(cols): the saved SQL, quotes / brackets / blanks aside, is the conjunction of the column equalities in order
+            want = "and".join(f"l.{c}=r.{c}" for c in r["cols"])
+            if squash_sql(jr.get("blocking_rule", "")) != want or jr.get("salting_partitions") or jr.get("arrays_to_explode"):
+                return f"blocking rule block_on{tuple(r['cols'])} saved as {jr}", "rule"
+        elif jr.get("blocking_rule") != r["sql"] or jr.get("salting_partitions") != r.get("salt") or jr.get("arrays_to_explode") != r.get("explode"):
             return f"blocking rule {r} saved as {jr}", "rule"
+    if len(j1["comparisons"]) != len(case["comparisons"]):
+        return f"{len(case['comparisons'])} comparisons given, {len(j1['comparisons'])} saved", "comparison count"
     for c, jc in zip(case["comparisons"], j1["comparisons"]):
+        lo = level_order_diff(c, jc["comparison_levels"])
+        if lo:
+            return f"comparison {c['col']}: {lo}", "level order"
         if c.get("desc") and jc.get("comparison_description") != c["desc"]:
             return f"comparison_description: user wrote {c['desc']!r}, saved model has {jc.get('comparison_description')!r}", "description"
         if c.get("name") and jc.get("output_column_name") != c["name"]:
@@ -677,6 +945,120 @@ def user_values_verdict(case, j1):
     return None
 
 
+# ---- brute force: the user's level list evaluated in the user's order, in plain Python
+def sem_levels(c):
+    """The meaning of every level of comparison spec `c`, in the user's order, or None when a level cannot be evaluated here
+    (jaro-winkler)."""
+    col = c["col"]
+    if c["src"] == "dict":
+        out = [dict(lv, col=lv.get("col", col)) for lv in c["levels"]]
+    elif c.get("creator") == "CustomComparison":
+        out = []
+        for lv in c["levels"]:
+            lcol, lib = lv.get("col", col), lv["lib"]
+            if lib == "CustomLevel":
+                sem = lv.get("sem") or ({"kind": "lev", "k": 2} if lv.get("sql") == f"levenshtein({col}_l, {col}_r) <= 2" else None)
+                if sem is None:
+                    return None
+                out.append(dict(sem, col=col))
+            else:
+                kind = {"NullLevel": "null", "ExactMatchLevel": "eq", "LevenshteinLevel": "lev", "And": "eq2", "OrNull": "nullany", "ElseLevel": "else"}[lib]
+                out.append({"kind": kind, "col": lcol, "col2": lv.get("col2"), "k": lv.get("k")})
+    elif c.get("creator") in ("ExactMatch", "LevenshteinAtThresholds"):
+        out = [{"kind": "null", "col": col}, {"kind": "eq", "col": col}] + [{"kind": "lev", "col": col, "k": t} for t in c.get("thresholds", [])] + [{"kind": "else"}]
+    else:
+        return None
+    return None if any(lv["kind"] == "jw" for lv in out) else out
+
+
+def edit_distance(x, y):
+    prev = list(range(len(y) + 1))
+    for i, cx in enumerate(x, 1):
+        cur = [i]
+        for j, cy in enumerate(y, 1):
+            cur.append(min(prev[j] + 1, cur[j - 1] + 1, prev[j - 1] + (cx != cy)))
+        prev = cur
+    return prev[-1]
+
+
+def level_holds(lv, L, R):
+    """SQL three-valued logic: a comparison with a NULL operand is not true."""
+    def null(c):
+        return L[c] is None or R[c] is None
+
+    k = lv["kind"]
+    if k == "else":
+        return True
+    if k == "null":
+        return null(lv["col"])
+    if k == "nullboth":
+        return null(lv["col"]) and null(lv["col2"])
+    if k == "nullany":
+        return null(lv["col"]) or null(lv["col2"])
+    if null(lv["col"]):
+        return False
+    x, y = L[lv["col"]], R[lv["col"]]
+    if k == "eq":
+        return x == y
+    if k == "eq2":
+        return x == y and not null(lv["col2"]) and L[lv["col2"]] == R[lv["col2"]]
+    if k == "lev":
+        return edit_distance(x, y) <= lv["k"]
+    if k == "prefix":
+        return x[: lv["k"]] == y[: lv["k"]]
+    raise core.HarnessError(f"level kind {k}")
+
+
+def expected_gamma(sem, L, R):
+    """First level of the CASE WHEN chain that holds: -1 for a null level, else its rank counted down from (#non-null levels - 1)."""
+    counter = sum(1 for lv in sem if lv["kind"] not in NULL_KINDS) - 1
+    for lv in sem:
+        isnull = lv["kind"] in NULL_KINDS
+        if level_holds(lv, L, R):
+            return -1 if isnull else counter
+        if not isnull:
+            counter -= 1
+    return None
+
+
+def gamma_check(case, j, pred):
+    """Every scored pair's comparison vector value against the brute-force evaluation.  Returns (first difference or None, stats)."""
+    stats = {"pairs": 0, "overlap": 0, "null_overlap": 0, "comparisons": 0}
+    if not pred or not pred["rows"]:
+        return None, stats
+    uid, sds = case["uid"], case["opts"].get("source_dataset_column_name", "source_dataset")
+    linked = case["link_type"] != "dedupe_only"
+    names = dataset_names(case)
+    by_key = {((names[r["ds"]] if linked else None), r["id"]): r for r in case["rows"]}
+    prefix = case["opts"].get("comparison_vector_value_column_prefix", "gamma_")
+    first = None
+    for c, jc in zip(case["comparisons"], j["comparisons"]):
+        sem = sem_levels(c)
+        gcol = f"{prefix}{jc['output_column_name']}".replace(" ", "_")
+        if sem is None or gcol not in pred["columns"]:
+            continue
+        stats["comparisons"] += 1
+        for row in pred["rows"]:
+            try:
+                L = by_key[((row[f"{sds}_l"] if linked else None), row[f"{uid}_l"])]
+                R = by_key[((row[f"{sds}_r"] if linked else None), row[f"{uid}_r"])]
+            except KeyError as e:
+                raise core.HarnessError(f"predict() row refers to an unknown record {e}: {row}") from None
+            want = expected_gamma(sem, L, R)
+            stats["pairs"] += 1
+            holds = [level_holds(lv, L, R) for lv in sem[:-1]]
+            if sum(holds) >= 2:
+                stats["overlap"] += 1
+                i0 = holds.index(True)
+                if sem[i0]["kind"] not in NULL_KINDS and any(h and lv["kind"] in NULL_KINDS for h, lv in zip(holds, sem[:-1])):
+                    stats["null_overlap"] += 1
+            if first is None and row[gcol] != want:
+                first = (f"comparison {jc['output_column_name']}: pair ({row.get(f'{sds}_l', '')}{row[f'{uid}_l']}, {row.get(f'{sds}_r', '')}{row[f'{uid}_r']}) = "
+                         f"({ {k: L[k] for k in 'abc'} }, { {k: R[k] for k in 'abc'} }) has {gcol}={row[gcol]!r}; the user's level list "
+                         f"{[level_sql(c['col'], lv, False) if c['src'] == 'dict' else lv for lv in c['levels']] if 'levels' in c else c['creator']} evaluated in order gives {want!r}")
+    return first, stats
+
+
 def has_zero_param(j):
     return any(l.get(k) == 0 for c in j["comparisons"] for l in c["comparison_levels"] for k in ("m_probability", "u_probability"))
 
@@ -695,6 +1077,13 @@ def verdict(case, r):
         add("construction: " + uv[0], "user value not preserved: " + uv[1])
     for i, s in enumerate(r["snaps"]):
         where = f"after {i} training steps"
+        g = s.get("overwrite_guard")
+        if g and (g["raised"] is None or not g["text_unchanged"]):
+            add(f"{where}: save_model_to_json(path) without overwrite=True on an existing file: raised {g['raised']!r}, file unchanged {g['text_unchanged']}", "overwrite guard")
+        if s["pred_err"] is None:
+            gd, _ = gamma_check(case, s["json1"], s["pred"])
+            if gd:
+                add(f"{where}, in-memory model: {gd}", "comparison vector value not as the user's level order (in memory)")
         for name in ("same", "other"):
             t = s.get(name)
             if t is None:
@@ -707,7 +1096,8 @@ def verdict(case, r):
             j1, j2 = (strip_dialect(s["json1"]), strip_dialect(t["json2"])) if cross else (s["json1"], t["json2"])
             d = json_diff(mask_descriptions(j1), mask_descriptions(j2))
             if d:
-                add(f"{tag}: second-generation JSON differs from the first at {d}", "second-generation JSON differs" + (" (other backend)" if cross else ""))
+                # the class names the part of the saved model that differs (first key of the path)
+                add(f"{tag}: second-generation JSON differs from the first at {d}", "second-generation JSON differs" + (" (other backend)" if cross else "") + ": " + d.split(":")[0].lstrip(".").split(".")[0].split("[")[0])
             dd = json_diff([c.get("comparison_description") for c in j1["comparisons"]], [c.get("comparison_description") for c in j2["comparisons"]])
             if dd:
                 add(f"{tag}: comparison descriptions of the re-saved model differ {dd}", "user value not preserved: description")
@@ -717,6 +1107,10 @@ def verdict(case, r):
                 d3 = json_diff(t["json2"], t["json3"])
                 if d3:
                     add(f"{tag}: third-generation JSON differs from the second at {d3}", "third-generation JSON differs")
+            if t.get("pred_err") is None and t.get("pred"):
+                gd, _ = gamma_check(case, s["json1"], t["pred"])
+                if gd:
+                    add(f"{tag}: {gd}", "comparison vector value not as the user's level order (after reload)")
             if s["pred_err"] is None and t.get("pred_err") is None:
                 # across engines log2 / pow differ in the last bits: a match weight of ~1e-15 needs an absolute floor
                 pd_ = pred_diff(s["pred"], t["pred"], 1e-9, 1e-12) if cross else pred_diff(s["pred"], t["pred"], 1e-12)
@@ -779,8 +1173,21 @@ def compare(ctx, cases, drv):
         ctx.count("history_len", len(c["history"])); ctx.count("n_rules", len(c["rules"])); ctx.count("has_tf", n_tf > 0)
         ctx.count("salted_or_exploding", any("salt" in x or "explode" in x for x in c["rules"]))
         ctx.count("custom_prefix", any(k.endswith("prefix") for k in c["opts"])); ctx.count("uid_column", c["uid"])
+        ctx.count("link_type", c["link_type"]); ctx.count("load_form", c.get("load_form", "path"))
+        ctx.count("settings_form", "plain dict" if all_dict(c) else c.get("settings_form", "SettingsCreator"))
+        ctx.count("rule_form", "+".join(sorted({x["form"] for x in c["rules"]})) or "none")
+        if c["link_type"] != "dedupe_only":
+            ctx.count("ids_collide_across_datasets", len({x["id"] for x in c["rows"]}) < len(c["rows"])); ctx.count("input_table_aliases", bool(c.get("aliases")))
+        if c.get("reuse_settings_object"):
+            ctx.count("settings_object_reused", "other dialect first" if is_portable(c) else "same dialect twice")
+        ctx.count("nulls_in_data", "+".join(k for k in "abc" if any(x[k] is None for x in c["rows"])) or "none")
+        ctx.count("empty_string_in_data", any(x["a"] == "" for x in c["rows"]))
         for cc in c["comparisons"]:
             ctx.count("comparison", cc.get("creator", "dict"))
+            sig = level_signature(cc)
+            npos = [i for i, (isnull, _, _) in enumerate(sig) if isnull]
+            ctx.count("null_level_positions", ",".join(map(str, npos)) or "no null level")
+            ctx.count("comparison_over_columns", len({x for _, cols, _ in sig for x in cols}))
             for l in cc.get("levels", []):
                 if l.get("tf"):
                     ctx.count("tf_weight", repr(l["tf"].get("weight"))); ctx.count("tf_min_u", repr(l["tf"].get("minU")))
@@ -799,7 +1206,16 @@ def compare(ctx, cases, drv):
         for e in r["ops"]:
             ctx.count("training_op", "ok" if e is None else "raised (not C09's business): " + e.split(":")[0])
         scored = any(s["pred_err"] is None and s["pred"]["rows"] for s in r["snaps"])
-        ctx.case({k: c[k] for k in ("engine", "uid", "rows", "comparisons", "rules", "opts", "history")}, scored,
+        gst = {"pairs": 0, "overlap": 0, "null_overlap": 0, "comparisons": 0}
+        for s in r["snaps"]:
+            for pr in [s["pred"] if s["pred_err"] is None else None] + [s[n].get("pred") for n in ("same", "other") if n in s and s[n].get("pred_err") is None]:
+                for k, v in gamma_check(c, s["json1"], pr)[1].items():
+                    gst[k] += v
+        ctx.count("gamma_brute_force", "checked" if gst["pairs"] else "not available (jaro-winkler level, gamma column not retained or nothing scored)")
+        ctx.count("gamma_brute_force_pairs", "total", gst["pairs"])
+        ctx.count("pair_meets_several_levels (order matters)", gst["overlap"] > 0)
+        ctx.count("pair_meets_null_level_and_an_earlier_level", gst["null_overlap"] > 0)
+        ctx.case({k: c.get(k) for k in ("engine", "uid", "rows", "comparisons", "rules", "opts", "history", "link_type", "aliases", "load_form", "settings_form", "reuse_settings_object")}, scored,
                  sample={"case": {k: c[k] for k in ("engine", "comparisons", "rules", "opts", "history")}, "saved_levels_of_first_comparison": (r["snaps"][-1]["json1"]["comparisons"] or [{}])[0].get("comparison_levels"),
                          "pairs_scored": len(r["snaps"][-1]["pred"]["rows"]) if r["snaps"][-1]["pred_err"] is None else r["snaps"][-1]["pred_err"]} if len(c["comparisons"]) == 1 else None)
         bad = verdict(c, r)
@@ -897,12 +1313,20 @@ def run(ctx: core.Ctx):
         "(ExactMatch, LevenshteinAtThresholds, JaroWinklerAtThresholds (duckdb), CustomComparison of library levels and CustomLevel.configure(...)); 0-3 blocking rules (strings, dicts, salted and "
         "exploding on duckdb); custom gamma/bf/tf prefixes, unique id column, retained columns, retain flags, prior, EM options, linker_uid; families: untrained, trained by 1-3 of "
         "estimate_u_using_random_sampling(max_pairs) / EM session / estimate_probability_two_random_records_match with a snapshot after every step, a data set on which the fuzzy level is never "
-        "observed, and a fixed boundary grid (weight x min-u on both engines, u=0). Each snapshot: save, reload on the same backend, reload on the other backend when portable, predict everywhere, "
-        "save again (and once more). non-trivial = at least one snapshot scored at least one pair; distinct = hash of the whole case."
+        "observed, and a fixed boundary grid (weight x min-u on both engines, u=0). Family 'ordered' (random + a fixed grid with the null level at every position): level lists in ARBITRARY "
+        "order - 0-2 null levels (own column, another column, AND / OR of both) anywhere before ELSE, 2-4 overlapping non-null levels over one or two columns (equality, edit distance, common "
+        "prefix, two-column equality; dict levels or NullLevel / ExactMatchLevel / LevenshteinLevel / CustomLevel / And / Or creators) in any order, data with NULLs in every column and empty "
+        "strings, optionally 1-2 training steps. Any case may use two input tables (link_only / link_and_dedupe, unique ids colliding across tables or not, input_table_aliases), reload "
+        "the model from a path string / pathlib.Path / the parsed JSON dict / SettingsCreator.from_path_or_dict, give rules as block_on creators, pass a plain settings dict holding creator "
+        "objects, and reuse one settings object for two linkers (other dialect first). Each snapshot: save (then once more without overwrite=True: must refuse), reload on the same backend, "
+        "reload on the other backend when portable, predict everywhere, save again (and once more). non-trivial = at least one snapshot scored at least one pair; distinct = hash of the whole case."
     )
     ctx.assumptions = [
         "the SQL engines evaluate identical SQL text with identical constants identically (predictions of original and reloaded model: 1e-12 relative on the same backend, 1e-9 across duckdb/sqlite)",
-        "portable = equality, levenshtein and TF levels, plain blocking rules, no u=0 (K6: SQLite cannot score u=0); other models are reloaded on their own backend only (counted under 'excluded')",
+        "portable = equality, levenshtein, substr-prefix and TF levels, plain blocking rules, no u=0 (K6: SQLite cannot score u=0); other models are reloaded on their own backend only (counted under 'excluded')",
+        "brute-force comparison vector values: SQL three-valued logic (a comparison with a NULL operand is not true), '' = '' is true, levenshtein = unit-cost edit distance, substr(x, 1, k) = x[:k] "
+        "on the ASCII strings generated; comparisons with a jaro-winkler level, or whose gamma column is not retained, are judged by the original-vs-reloaded comparison only (counted under gamma_brute_force)",
+        "library comparisons ExactMatch / LevenshteinAtThresholds / JaroWinklerAtThresholds are documented as [null, exact, thresholds..., else] in that order",
         "an unfixed m/u supplied by the user may be replaced by training; all other user values must appear unchanged in the first saved JSON",
         "the real object state is read from private attributes (_m_probability, _tf_adjustment_weight, ...), not through any serialiser",
         "InputColumn(tf column).input_name is the identity on the plain identifiers generated here; _default_output_column_name is taken from the real object",
@@ -915,8 +1339,8 @@ def run(ctx: core.Ctx):
     else:
         from harness import graphs
 
-        fams = ["dict", "creator", "trained", "unobserved"]
-        cases = graphs.load_corpus(PROP) + adversarial_cases() + [gen_case(ctx.rng, fams[i]) for i in range(4)] + [gen_case(ctx.rng) for _ in range(ctx.budget(360, 4000))]
+        fams = ["dict", "creator", "trained", "unobserved", "ordered"]
+        cases = graphs.load_corpus(PROP) + adversarial_cases() + ordered_grid_cases() + [gen_case(ctx.rng, f) for f in fams] + [gen_case(ctx.rng) for _ in range(ctx.budget(400, 4400))]
         # loud inputs
         for lr in core.pmap(run_loud, loud_cases()):
             ctx.count("outside_wf_input", f"{lr['name']}: {'raised' if lr['raised'] else 'ACCEPTED'}")
@@ -947,12 +1371,14 @@ def run(ctx: core.Ctx):
         if "snaps" in rr:
             obs = {"first_json": rr["snaps"][0]["json1"], "second_json_same_backend": rr["snaps"][0].get("same", {}).get("json2")}
         ctx.violation("real output violates C09: " + cls, {"case": small, "detail": detail, "observed": obs, "user_settings": user_settings_dict(small) if all_dict(small) else "(creators; see case)"},
-                      kind="concrete", match_info={"failure": cls, "engine": small["engine"]})
-    if not concrete or all(cls == "user value not preserved: description" for *_, cls in concrete):
-        if broken:
-            c, w = broken[0]
-            ctx.violation("correspondence Serialise model <-> as_dict / construction path no longer checks",
-                          {"correspondence": "harness/props/c09.py compare(): " + w, "case": c, "disagreeing_cases": len(broken), "searched_cases": ctx.evaluations, "lean": ctx.lean.as_dict()}, kind="unproved")
-        elif not ctx.lean.ok:
+                      kind="concrete", match_info={"failure": cls, "engine": small["engine"], "load_form": small.get("load_form", "path"), "link_type": small["link_type"]})
+    # `broken` only holds cases whose own real output passed the oracle (see compare()): a standing concrete finding elsewhere must
+    # not silence them
+    if broken:
+        c, w = broken[0]
+        ctx.violation("correspondence Serialise model <-> as_dict / construction path no longer checks",
+                      {"correspondence": "harness/props/c09.py compare(): " + w, "case": c, "disagreeing_cases": len(broken), "searched_cases": ctx.evaluations, "lean": ctx.lean.as_dict()}, kind="unproved")
+    elif not concrete or all(cls == "user value not preserved: description" for *_, cls in concrete):
+        if not ctx.lean.ok:
             ctx.violation("Lean obligations for C09 no longer check",
                           {"theorems": ctx.lean.as_dict()["undischarged"], "problems": ctx.lean.problems, "build_log_tail": ctx.lean.build_log[-1500:], "searched_cases": ctx.evaluations}, kind="unproved")
